@@ -197,3 +197,16 @@ CHECKS.update({
         "note": "Trusted: ref/refext4.py owner_map(); the metadata set demanded is a subset of what e2image documents to copy.",
     },
 })
+
+CHECKS.update({
+    "C15": {
+        "level": "exploration",
+        "technique": SIM + "seeded xattr histories through debugfs/libext2fs in batches against a name->value reference model; read-back by the library and by the independent reader (inode body, xattr block, value inodes), kernel hash and order rules recomputed from the format, conservation of blocks and inodes after cleanup; separate nearly-full configuration",
+        "text": ("Histories of 20-300 ea_set / replace / ea_rm operations on regular files, a directory, an inline-data file and a fifo, with names in "
+                 "four namespaces and values from 0 bytes to several blocks (value inodes with ea_inode), inode sizes 128-1024.  After every batch: "
+                 "ea_list / ea_get and the independent parser both equal the model; e_hash of block and value-inode entries, the value inode's crc32c "
+                 "hash under the filesystem's seed and the sort order of block entries equal what the format defines; e2fsck -fn is clean; after "
+                 "removing everything the free block and inode counts are back where they started.  Sampling."),
+        "note": "Trusted: per-command outcome parsed from debugfs's own messages (a refused set leaves the model unchanged); ref/refext4.py xattr parser.",
+    },
+})
